@@ -372,3 +372,49 @@ impl NaturalArray<AdvKind> for AdvArray<usize> {
         }
     }
 }
+
+// ---------------------------------------------------------------------------------------------
+// deviation-bounded exploration of choice tapes (CHESS-style iterative bounding applied to the
+// backend's open answers instead of preemptions)
+
+#[derive(Default, Clone, Debug)]
+pub struct TapeStats {
+    pub runs: u64,
+    pub diverged: u64,
+    pub capped: bool,
+    pub max_points: usize,
+}
+
+/// Run `f` under every choice tape with at most `bound` non-default answers (all tapes when
+/// `bound == usize::MAX`), depth-first; `visit` sees each execution's tape, result and log.
+pub fn explore_tapes<R>(bound: usize, max_runs: u64, mut f: impl FnMut() -> R, mut visit: impl FnMut(&[u32], R, &[Choice])) -> TapeStats {
+    let mut st = TapeStats::default();
+    let mut stack: Vec<Vec<u32>> = vec![vec![]];
+    while let Some(prefix) = stack.pop() {
+        if st.runs >= max_runs {
+            st.capped = true;
+            break;
+        }
+        let (r, log, bad) = with_tape(&prefix, &mut f);
+        st.runs += 1;
+        st.max_points = st.max_points.max(log.len());
+        let taken: Vec<u32> = log.iter().map(|c| c.taken).collect();
+        if bad || taken.len() < prefix.len() || taken[..prefix.len()] != prefix[..] {
+            // replaying a prefix met a different sequence of choice points: nondeterminism not owned
+            st.diverged += 1;
+        }
+        visit(&taken, r, &log);
+        for i in prefix.len()..log.len() {
+            let devs = taken[..i].iter().filter(|&&t| t != 0).count();
+            if bound != usize::MAX && devs + 1 > bound {
+                continue;
+            }
+            for alt in 1..log[i].arity {
+                let mut p = taken[..i].to_vec();
+                p.push(alt);
+                stack.push(p);
+            }
+        }
+    }
+    st
+}
